@@ -13,6 +13,9 @@ def finding(props, rule, key, what, sig=None, n=None):
 finding(["C07","C06"], "M2", "tensor.(StdEng).*[incr,*one-element]",
         "E.<Op>Incr scalar-scalar arm computes into operand a before adding: Add([2],[3],WithIncr([10])) leaves a=[5]",
         "writes operand A, which is not the destination of incr mode", 37)
+finding(["C19"], "M2W", "tensor.(StdEng).*[incr,*one-element]",
+        "same defect seen as an ownership violation: an operand that is not the destination is written - Add([2],[3],WithIncr([10])) leaves a=[5]",
+        "writes operand A, which is not the destination of incr mode", 37)
 ALIAS = "reuse tensor aliasing the second operand: the copy of A into reuse clobbers B before it is read: Sub(aT,bT,WithReuse(bT)) = 0, Gt(c,d,AsSameType(),WithReuse(d)) = 0, MinBetween(e,f,WithReuse(f)) = e"
 finding(["C07","C06"], "M2", "tensor.(StdEng).*[reuse,iter,R=B]", ALIAS + " (arithmetic: iterator path only)", "returned buffer holds Op(A,A), want Op(A,B)", 45)
 finding(["C07","C06"], "M2", "tensor.(StdEng).*Between[reuse,raw,R=B]", ALIAS + " (min/max: raw path too)", "returned buffer holds Op(A,A), want Op(A,B)", 45)
@@ -56,6 +59,9 @@ finding(["C14"], "F1", "tensor.numpyDtypes[Int32]", "GOARCH=386: Int32 is writte
 finding(["C14"], "F1", "tensor.numpyDtypes[Uint32]", "GOARCH=386: Uint32 is written as u4, which the reader maps to Uint", "Uint32->u4->Uint", 43)
 
 FIXED = [
+ {"property":"C06","commit":"d23be1f","rule":"ND","key":"tensor.(StdEng).*#alloc*","what":"fixed: property=C06 d23be1f comparison and min/max methods allocated their safe-mode result row-major whatever the operands' order: MinBetween(a,b) of column-major 2x3 [[1 2 3][4 5 6]], [[6 5 4][3 2 1]] returned [[1 3 2][2 3 1]]; Gt(a,b) likewise (DESIGN finding 59)"},
+ {"property":"C11","commit":"d23be1f","rule":"ND","key":"tensor.(StdEng).*#alloc*","what":"fixed: property=C11 d23be1f same defect seen through the comparisons (DESIGN finding 59)"},
+ {"property":"C16","commit":"d23be1f","rule":"ND","key":"tensor.(StdEng).*#alloc*","what":"fixed: property=C16 d23be1f same defect: column-major operands gave other results than their row-major counterparts (DESIGN finding 59)"},
  {"property":"C16","commit":"8bdbb2d","rule":"L0","key":"tensor.prepDataUnary#useIter","what":"fixed: property=C16 8bdbb2d prepDataUnary had no data-order term: Neg(colA, WithIncr(rowZeros)) added raw column-major data into a row-major buffer (DESIGN finding 41)"},
  {"property":"C10","commit":"733eed1","rule":"P2","key":"tensor.(*Dense).Concat(t), tensor.(*Dense).Hstack(t), tensor.(*Dense).Vstack(t), tensor.(StdEng).Concat(t), tensor.(StdEng).Concat(others), tensor.Concat(t)","what":"fixed: property=C10 733eed1 denseConcat reshaped row-vector operands and cleared a masked operand's mask (mt.SetMask(nil)); the restore was commented out (DESIGN finding 16)"},
  {"property":"C18","commit":"7e8227a","rule":"P2","key":"tensor.(*Dense).Norm(t)","what":"fixed: property=C18 7e8227a Norm swapped a flat access pattern into its operand for the duration of a Dot call: eight goroutines calling t.Norm() on one shared tensor got wrong norms, data races, and left t with shape (0) (DESIGN finding 48)"},
